@@ -225,6 +225,26 @@ func (s *Server) DialTLSArm(arm func(sv *vconn.Conn)) (*Raw, error) {
 	return r, nil
 }
 
+// DialTLSExternal connects through TLS terminated by a listener wrapper the server does not know
+// about (tls.NewListener in front of a Server that has no TLSConfig of its own).
+func (s *Server) DialTLSExternal() (*Raw, error) {
+	cert, _ := TestCert()
+	log := &vconn.Log{}
+	c, sv := vconn.Pipe("client", "server", log)
+	s.Ln.Inject(tls.Server(sv, &tls.Config{Certificates: []tls.Certificate{cert}}))
+	tc := tls.Client(c, ClientTLSConfig())
+	r := &Raw{C: c, S: sv, Log: log, rw: tc}
+	r.cond = sync.NewCond(&r.mu)
+	if err := tc.Handshake(); err != nil {
+		r.HandshakeErr = err
+		r.eof = true
+		return r, err
+	}
+	r.pumpDone = make(chan struct{})
+	go r.pump(tc, 0, r.pumpDone)
+	return r, nil
+}
+
 func (r *Raw) pump(rd io.Reader, gen int, done chan struct{}) {
 	defer close(done)
 	buf := make([]byte, 64*1024)
